@@ -30,6 +30,7 @@ ABS_CFG = os.path.join(DIR, 'RoutingAbs.cfg')
 ENUM = os.path.join(DIR, 'CircuitEnum.tla')
 ALG = os.path.join(DIR, 'MappingAlgebra.tla')
 TRACE = os.path.join(DIR, 'MappingTrace.tla')
+GEN = os.path.join(DIR, 'MappingGen.tla')
 TRACE_CFG = os.path.join(DIR, 'MappingTrace.cfg')
 
 MANIFEST_ENTRY = dict(
@@ -156,6 +157,85 @@ def random_config(rng):
             'extended_set_weight': rng.choice([0.0, 0.5, 0.5, 1.0])}
 
 
+# ----------------------------------------------------------------------------- workflows
+
+def single_stage(nphys, edges, cfg):
+    """The one-stage workflow [SetModel, placement, (layout), routing, ApplyPlacement] as a list of steps."""
+    steps = [{'kind': 'setmodel', 'flavour': '', 'n': nphys, 'edges': [list(e) for e in edges]},
+             {'kind': 'place', 'flavour': cfg['placement']}]
+    if cfg['layout_passes'] > 0:
+        steps.append({'kind': 'layout', 'flavour': 'sabre'})
+    steps += [{'kind': 'route', 'flavour': 'sabre'}, {'kind': 'apply', 'flavour': ''}]
+    return steps
+
+
+def as_job(j):
+    """A job is {'recipe', 'steps', 'cfg'}; replay files written before workflows existed hold [nphys, edges, recipe, cfg]."""
+    if isinstance(j, dict):
+        return j
+    nphys, edges, recipe, cfg = j
+    return {'recipe': recipe, 'steps': single_stage(nphys, edges, cfg), 'cfg': cfg}
+
+
+def shape_of(steps):
+    return ' '.join('%s%s' % (s['kind'], (':' + s['flavour']) if s.get('flavour') else (':%d' % s['n']) if s['kind'] == 'setmodel' else '')
+                    for s in steps)
+
+
+def degrade(rng, n, edges):
+    """The same machine with one coupler lost (still connected), or one gained."""
+    edges = [list(e) for e in edges]
+    rng.shuffle(edges)
+    if rng.random() < 0.7:
+        for e in edges:
+            rest = [x for x in edges if x != e]
+            if len(rest) >= n - 1 and connected(n, rest):
+                return sorted(rest)
+    missing = [[a, b] for a in range(n) for b in range(a + 1, n) if [a, b] not in edges]
+    if missing:
+        return sorted(edges + [rng.choice(missing)])
+    return sorted(edges)
+
+
+def scale_workflow(rng, steps, nlog):
+    """The SHAPE of a TLC-generated workflow on larger machines: the order relation between the machine sizes is kept
+    (same size -> same size, larger -> larger), a machine of the same size is the previous one with a coupler lost / gained
+    or a fresh one."""
+    sizes = sorted({s['n'] for s in steps if s['kind'] == 'setmodel'})
+    lo = nlog
+    newsize = {}
+    for k, sz in enumerate(sizes):
+        hi = max(lo, 10 - (len(sizes) - 1 - k))
+        newsize[sz] = rng.randint(lo, min(hi, lo + 3))
+        lo = newsize[sz] + 1
+    out, prev = [], None
+    for s in steps:
+        s = dict(s)
+        if s['kind'] == 'setmodel':
+            n = min(newsize[s['n']], 10)
+            if prev is not None and prev[0] == n and rng.random() < 0.7:
+                edges = degrade(rng, n, prev[1])
+            else:
+                edges = random_graph(rng, n)
+                if rng.random() < 0.5 and n >= 3:
+                    edges = rng.choice([[[a, a + 1] for a in range(n - 1)], [[a, (a + 1) % n] for a in range(n)] if n > 2 else [[0, 1]],
+                                        [[0, a] for a in range(1, n)]])
+                    edges = sorted(sorted(e) for e in edges)
+            s['n'], s['edges'] = n, edges
+            prev = (n, edges)
+        out.append(s)
+    return out
+
+
+def dense_recipe(rng, n, nops):
+    """Many far-apart two- and three-qudit gates: the first routing has to move logical qudits."""
+    ops = []
+    for _ in range(nops):
+        a = rng.choice([2, 2, 2, 3]) if n >= 3 else 2
+        ops.append({'k': 'g', 'loc': rng.sample(range(n), a), 'v': rng.randrange(6)})
+    return {'nq': n, 'ops': ops}
+
+
 # ----------------------------------------------------------------------------- driving the real passes
 
 def _run(p, circ, data):
@@ -176,14 +256,40 @@ def _needconn(o):
     return False
 
 
+_SWAP_MSG = re.compile(r'applying swap \((\d+), (\d+)\)')
+
+
+def _observe_circuit(circ, meta):
+    """The circuit as RoutingAbs reads it: swaps, barriers, identified input operations, anything else."""
+    from bqskit.ir.gates import BarrierPlaceholder, CircuitGate, SwapGate, TaggedGate
+    ident = _c08._Ident(meta)
+    out = []
+    for op in circ:
+        loc = [int(q) for q in op.location]
+        g = op.gate
+        par = [_c08._micro(x) for x in op.params]
+        if isinstance(g, SwapGate):
+            out.append({'k': 's', 'id': 0, 'loc': loc, 'par': []})
+        elif isinstance(g, BarrierPlaceholder):
+            out.append({'k': 'b', 'id': 0, 'loc': loc, 'par': []})
+        elif isinstance(g, (TaggedGate, CircuitGate)):
+            i = ident.of(op, loc)
+            out.append({'k': 'g' if i else 'x', 'id': i, 'loc': loc, 'par': par})
+        else:
+            out.append({'k': 'x', 'id': 0, 'loc': loc, 'par': par})
+    return out
+
+
 def observe(job):
-    """job = (nphys, edges, recipe, cfg) -> case (JSON-able) or {'skip': reason}."""
-    nphys, edges, recipe, cfg = job
+    """job = {'recipe', 'steps', 'cfg'} -> run (JSON-able): a snapshot of PassData after every pass, the circuit at every point
+    where it is as wide as the machine under the identity placement, or {'skip': reason} when the first passes already refuse."""
+    job = as_job(job)
+    recipe, steps, cfg = job['recipe'], job['steps'], job['cfg']
     warnings.filterwarnings('ignore')
     from bqskit import passes as P
     from bqskit.compiler.machine import MachineModel
     from bqskit.compiler.passdata import PassData
-    from bqskit.ir.gates import BarrierPlaceholder, CircuitGate, SwapGate, TaggedGate
+    from bqskit.ir.gates import SwapGate
     from bqskit.qis.graph import CouplingGraph
     circ, meta = _c08.build(recipe)
     n = recipe['nq']
@@ -191,103 +297,135 @@ def observe(job):
     for ident, o in enumerate(recipe['ops'], 1):
         for q in o['loc']:
             inseq[q].append(ident)
-    model = MachineModel(nphys, CouplingGraph([tuple(e) for e in edges], nphys))
     data = PassData(circ)
     sab = (cfg['decay_delta'], cfg['decay_reset_interval'], cfg['decay_reset_on_gate'], cfg['extended_set_size'], cfg['extended_set_weight'])
-    place = {'greedy': P.GreedyPlacementPass, 'trivial': P.TrivialPlacementPass, 'static': P.StaticPlacementPass}[cfg['placement']]()
-    steps = [('setmodel', P.SetModelPass(model)), ('place', place)]
-    if cfg['layout_passes'] > 0:
-        steps.append(('layout', P.GeneralizedSabreLayoutPass(cfg['layout_passes'], *sab)))
-    steps += [('route', P.GeneralizedSabreRoutingPass(*sab)), ('apply', P.ApplyPlacement())]
-    snaps = []
-    raised = ''
-    # the local-minimum escape of the router announces itself on the module logger: count it (no hook needed)
+    # the router announces its local-minimum escape and every swap it applies to pi on the module logger (no hook needed)
     import logging
 
-    class _Count(logging.Handler):
+    class _Listen(logging.Handler):
         n = 0
-
         routing = 0
         now = ''
+        swaps = []
 
         def emit(self, record):
-            if 'backtracking' in record.getMessage():
-                _Count.n += 1
-                if _Count.now == 'route':
-                    _Count.routing += 1
-    _Count.n = 0
-    _Count.routing = 0
-    lg = logging.getLogger('bqskit.passes.mapping.sabre')
-    h = _Count(level=logging.DEBUG)
-    old = (lg.level, lg.propagate, logging.root.manager.disable)
+            msg = record.getMessage()
+            if 'backtracking' in msg:
+                _Listen.n += 1
+                if _Listen.now == 'route':
+                    _Listen.routing += 1
+            elif _Listen.now == 'route':
+                m = _SWAP_MSG.match(msg)
+                if m:
+                    _Listen.swaps.append([int(m.group(1)), int(m.group(2))])
+    _Listen.n = 0
+    _Listen.routing = 0
+    _Listen.swaps = []
+    loggers = [logging.getLogger('bqskit.passes.mapping.sabre'), logging.getLogger('bqskit.passes.mapping.pam')]
+    h = _Listen(level=logging.DEBUG)
+    old = [(lg.level, lg.propagate) for lg in loggers]
+    old_disable = logging.root.manager.disable
     logging.disable(logging.NOTSET)
-    lg.setLevel(logging.DEBUG)
-    lg.propagate = False
-    lg.addHandler(h)
-    pre_apply_swaps = []
-    placement_before_apply = []
+    for lg in loggers:
+        lg.setLevel(logging.DEBUG)
+        lg.propagate = False
+        lg.addHandler(h)
 
-    def snap(name):
-        return {'after': name, 'placement': [int(x) for x in data.placement], 'im': [int(x) for x in data.initial_mapping],
-                'fm': [int(x) for x in data.final_mapping]}
-    snaps.append(snap('start'))
-    for name, p in steps:
-        if name == 'apply':
-            placement_before_apply = [int(x) for x in data.placement]
-            pre_apply_swaps = [[int(q) for q in op.location] for op in circ if isinstance(op.gate, SwapGate)]
-        _Count.now = name
+    def restore():
+        for lg, (lv, pr) in zip(loggers, old):
+            lg.removeHandler(h)
+            lg.setLevel(lv)
+            lg.propagate = pr
+        logging.disable(old_disable)
+
+    def make(st):
+        k, fl = st['kind'], st.get('flavour', '')
+        if k == 'setmodel':
+            return P.SetModelPass(MachineModel(st['n'], CouplingGraph([tuple(e) for e in st['edges']], st['n'])))
+        if k == 'place':
+            return {'greedy': P.GreedyPlacementPass, 'trivial': P.TrivialPlacementPass, 'static': P.StaticPlacementPass}[fl]()
+        if k == 'layout' and fl == 'sabre':
+            return P.GeneralizedSabreLayoutPass(max(1, cfg['layout_passes']), *sab)
+        if k == 'route' and fl == 'sabre':
+            return P.GeneralizedSabreRoutingPass(*sab)
+        if k == 'apply':
+            return P.ApplyPlacement()
+        raise MachineryError('no pass for step %r' % (st,))
+
+    snaps, points = [], {}
+    raised, refused = '', ''
+    machine = (0, [])
+    before_apply = []
+    mech = 0            # routing passes that started with final_mapping != initial_mapping
+    nroute = 0
+    ran = []
+    for si, st in enumerate(steps, 1):
+        kind = st['kind']
+        if kind == 'apply':
+            before_apply = [int(x) for x in data.placement]
+        if kind == 'route':
+            _Listen.swaps = []
+            moved = [int(x) for x in data.initial_mapping] != [int(x) for x in data.final_mapping]
+        _Listen.now = kind
         try:
+            p = make(st)
             with _c08._Limit(RUN_TIME_LIMIT):
                 _run(p, circ, data)
         except MachineryError:
+            restore()
             raise
         except Exception as e:           # noqa
             msg = '%s: %s' % (type(e).__name__, str(e)[:160])
             if any(r in msg for r in REFUSALS):
-                lg.removeHandler(h)
-                lg.setLevel(old[0])
-                lg.propagate = old[1]
-                logging.disable(old[2])
-                return {'skip': 'refused by design: ' + next(r for r in REFUSALS if r in msg)}
-            raised = '%s in %s' % (msg, name)
-            break
-        snaps.append(snap(name))
-    lg.removeHandler(h)
-    lg.setLevel(old[0])
-    lg.propagate = old[1]
-    logging.disable(old[2])
-    ident = _c08._Ident(meta)
-    out = []
-    if not raised:
-        for op in circ:
-            loc = [int(q) for q in op.location]
-            g = op.gate
-            par = [_c08._micro(x) for x in op.params]
-            if isinstance(g, SwapGate):
-                out.append({'k': 's', 'id': 0, 'loc': loc, 'par': []})
-            elif isinstance(g, BarrierPlaceholder):
-                out.append({'k': 'b', 'id': 0, 'loc': loc, 'par': []})
-            elif isinstance(g, (TaggedGate, CircuitGate)):
-                i = ident.of(op, loc)
-                out.append({'k': 'g' if i else 'x', 'id': i, 'loc': loc, 'par': par})
+                refused = 'refused by design: ' + next(r for r in REFUSALS if r in msg)     # the workflow ends before this pass
             else:
-                out.append({'k': 'x', 'id': 0, 'loc': loc, 'par': par})
-    return {'nphys': nphys, 'edges': edges, 'nlog': n, 'inseq': inseq, 'oploc': meta['oploc'], 'kind': meta['kind'], 'par': meta['par'],
-            'needconn': [_needconn(o) for o in recipe['ops']], 'out': out,
-            'pinit': [int(x) for x in data.initial_mapping], 'pfinal': [int(x) for x in data.final_mapping],
-            'placement': placement_before_apply if placement_before_apply else [int(x) for x in data.placement][:n],
-            'raised': raised, 'width': int(circ.num_qudits), 'escapes': _Count.n, 'escapes_routing': _Count.routing,
-            'snaps': snaps, 'swaps': pre_apply_swaps, 'cfg': cfg, 'recipe': recipe}
+                raised = '%s in %s (pass %d of the workflow)' % (msg, kind, si)
+            break
+        _Listen.now = ''
+        ran.append(st)
+        if kind == 'setmodel':
+            machine = (st['n'], [list(e) for e in st['edges']])
+        snap = {'after': kind, 'flavour': st.get('flavour', ''), 'n': st.get('n', 0) if kind == 'setmodel' else 0,
+                'edges': [list(e) for e in st['edges']] if kind == 'setmodel' else [],
+                'placement': [int(x) for x in data.placement], 'im': [int(x) for x in data.initial_mapping],
+                'fm': [int(x) for x in data.final_mapping], 'swaps': [], 'cswaps': [], 'cand': False}
+        if kind == 'route':
+            nroute += 1
+            mech += 1 if moved else 0
+            snap['swaps'] = _Listen.swaps
+            snap['cswaps'] = [[int(q) for q in op.location] for op in circ if isinstance(op.gate, SwapGate)]
+            snap['moved'] = moved
+        # the circuit is observed wherever it is as wide as the machine and the placement is the identity; whether it is a
+        # circuit the property speaks about at that point is for the model to say (MappingTrace.tla prints JUDGE)
+        if kind in ('route', 'apply') and machine[0] and circ.num_qudits == machine[0] \
+                and [int(x) for x in data.placement] == list(range(machine[0])):
+            snap['cand'] = True
+            pl = before_apply if kind == 'apply' else [int(x) for x in data.placement]
+            points[str(si)] = {'nphys': machine[0], 'edges': machine[1], 'out': _observe_circuit(circ, meta),
+                               'pinit': snap['im'], 'pfinal': snap['fm'], 'placement': pl, 'pw': len(pl),
+                               'routes_before': nroute, 'mech_before': mech}
+        snaps.append(snap)
+    restore()
+    if not raised and (not snaps or (refused and not any(s['after'] == 'route' for s in snaps))):
+        return {'skip': refused or 'empty workflow'}       # refused before anything was routed: not a run
+    return {'nlog': n, 'inseq': inseq, 'oploc': meta['oploc'], 'kind': meta['kind'], 'par': meta['par'],
+            'needconn': [_needconn(o) for o in recipe['ops']], 'snaps': snaps, 'points': points,
+            'raised': raised, 'refused': refused, 'machine': list(machine), 'width': int(circ.num_qudits),
+            'escapes': _Listen.n, 'escapes_routing': _Listen.routing, 'routes': nroute, 'mech': mech,
+            'steps': ran, 'cfg': cfg, 'recipe': recipe}
 
 
-def _strip(c):
-    return {k: v for k, v in c.items() if k not in ('snaps', 'swaps', 'cfg', 'recipe', 'src', 'width', 'escapes', 'escapes_routing')}
+def l1_case(run, point):
+    """What RoutingAbs reads: the input's operations, the machine, the circuit and the mappings recorded at one point."""
+    return {'nphys': point['nphys'], 'edges': point['edges'], 'nlog': run['nlog'], 'inseq': run['inseq'], 'oploc': run['oploc'],
+            'kind': run['kind'], 'par': run['par'], 'needconn': run['needconn'], 'out': point['out'], 'pinit': point['pinit'],
+            'pfinal': point['pfinal'], 'placement': point['placement'], 'pw': point['pw'], 'raised': point.get('raised', '')}
 
 
 # ----------------------------------------------------------------------------- TLC runs
 
-ALG_ACTIONS = ['SetModel', 'Place', 'Layout', 'RouteStart', 'DoRouteSwap', 'ExecGate', 'Backtrack', 'RouteEnd', 'Apply']
-ALG_INVARIANTS = 'PublishedAreTokens PiTracksTokens MappingsInjective MappingsInRange PlacementConnected TokensConserved'
+ALG_ACTIONS = ['DoSetModel', 'DoPlace', 'DoLayout', 'DoRouteStart', 'DoRouteSwap', 'ExecGate', 'Backtrack', 'RouteEnd', 'DoApply']
+ALG_INVARIANTS = 'PublishedAreTokens PiTracksTokens MappingsInjective MappingsInRange PlacementConnected TokensConserved AppliedMeans'
 
 
 def _coverage(out):
@@ -297,31 +435,82 @@ def _coverage(out):
     return cov
 
 
+def _sizes(s):
+    return '{%s}' % ', '.join(str(x) for x in s)
+
+
 def run_algebra(ctx, stats):
-    configs = [(2, 3, 'all', 3), (3, 4, 'all', 3), (4, 5, 'rep', 2)] if ctx.quick else \
-              [(2, 3, 'all', 4), (3, 4, 'all', 4), (3, 5, 'rep', 4), (4, 4, 'all', 3), (4, 5, 'rep', 3)]
+    """MappingAlgebra.tla, exhaustively: the pass counter is hidden (VIEW) and its bound out of reach, so the search covers
+    workflows of every length over the given machine sizes."""
+    configs = [(2, (2, 3), 'all', 2), (3, (3,), 'all', 2)] if ctx.quick else \
+              [(2, (2, 3), 'all', 3), (3, (3,), 'all', 3), (2, (3, 4), 'rep', 1), (3, (3, 4), 'rep', 1)]
     cov = {a: 0 for a in ALG_ACTIONS}
     runs = []
-    for nl, np_, gm, ms in configs:
-        cfg = os.path.join(ctx.scratch, 'MappingAlgebra_%d_%d.cfg' % (nl, np_))
+    for nl, sizes, gm, ms in configs:
+        cfg = os.path.join(ctx.scratch, 'MappingAlgebra_%d_%s.cfg' % (nl, '_'.join(map(str, sizes))))
         with open(cfg, 'w') as f:
-            f.write('SPECIFICATION Spec\nCONSTANTS\n  NL = %d\n  NP = %d\n  GraphMode = "%s"\n  MaxSwaps = %d\nINVARIANTS %s\nCHECK_DEADLOCK FALSE\n'
-                    % (nl, np_, gm, ms, ALG_INVARIANTS))
+            f.write('SPECIFICATION Spec\nCONSTANTS\n  NL = %d\n  Sizes = %s\n  GraphMode = "%s"\n  MaxSwaps = %d\n  MaxSteps = 1000000\n'
+                    'VIEW NoSteps\nINVARIANTS %s\nCHECK_DEADLOCK FALSE\n' % (nl, _sizes(sizes), gm, ms, ALG_INVARIANTS))
         r = common.tlc(ALG, cfg, coverage=True, scratch=ctx.scratch, timeout=3000)
         if not r.ok:
-            raise MachineryError('MappingAlgebra.tla (%d logical on %d physical): %s' % (nl, np_, r.error or r.out[-1500:]))
+            raise MachineryError('MappingAlgebra.tla (%d logical, machines of %s): %s' % (nl, sizes, r.error or r.out[-1500:]))
         c = _coverage(r.out)
         for a in ALG_ACTIONS:
             cov[a] += c.get(a, 0)
         stats['states'] += r.distinct
         stats['transitions'] += r.states
-        runs.append({'NL': nl, 'NP': np_, 'graphs': gm, 'MaxSwaps': ms, 'states': r.distinct, 'transitions': r.states, 'depth': r.depth,
-                     'wall_s': round(r.wall, 1)})
+        runs.append({'NL': nl, 'Sizes': list(sizes), 'graphs': gm, 'MaxSwaps': ms, 'workflow_length': 'unbounded', 'states': r.distinct,
+                     'transitions': r.states, 'depth': r.depth, 'wall_s': round(r.wall, 1)})
     vac = [a for a, n in cov.items() if n == 0]
     if vac:
         raise MachineryError('MappingAlgebra.tla: action(s) never taken: %s' % vac)
     stats['algebra_runs'] = runs
     stats['algebra_action_coverage'] = cov
+
+
+def _edges_of(v):
+    return sorted(sorted(int(x) for x in e['set']) for e in v['set'])
+
+
+def generate_workflows(ctx, stats):
+    """Workflows generated by TLC (simulation of MappingGen.tla over MappingAlgebra's actions), distinct, each with the number of
+    routing passes that started with fm # im in the generating behaviour."""
+    configs = [(2, (2, 3, 4), 4, 9, 500), (3, (3, 4, 5), 4, 9, 700)] if ctx.quick else \
+              [(2, (2, 3, 4), 3, 12, 3000), (3, (3, 4, 5), 3, 12, 4000), (4, (4, 5), 3, 10, 2000)]
+    out = []
+    gen = []
+    for nl, sizes, lo, hi, num in configs:
+        cfg = os.path.join(ctx.scratch, 'MappingGen_%d.cfg' % nl)
+        with open(cfg, 'w') as f:
+            f.write('SPECIFICATION GSpec\nCONSTANTS\n  NL = %d\n  Sizes = %s\n  GraphMode = "%s"\n  MaxSwaps = 2\n  MaxSteps = %d\n  MinLen = %d\n'
+                    '  GenFlavours = {"sabre"}\nINVARIANTS %s\nCHECK_DEADLOCK FALSE\n' % (nl, _sizes(sizes), 'all', hi, lo, ALG_INVARIANTS))
+        r = common.tlc(GEN, cfg, simulate='num=%d' % num, depth=40 * hi, seed=ctx.seed * 7919 + nl, workers=1, scratch=ctx.scratch, timeout=1500)
+        if not r.ok:
+            raise MachineryError('MappingGen.tla (%d logical): %s' % (nl, r.error or r.out[-1500:]))
+        seen = {}
+        for v in r.prints:
+            if not v or v[0] != 'WF':
+                continue
+            steps = []
+            for kind, fl, n, E in v[2]:
+                st = {'kind': kind, 'flavour': fl}
+                if kind == 'setmodel':
+                    st['n'], st['edges'] = int(n), _edges_of(E)
+                steps.append(st)
+            key = json.dumps(steps, sort_keys=True)
+            if key not in seen or seen[key]['hits'] < v[1]:
+                seen[key] = {'nl': nl, 'steps': steps, 'hits': int(v[1])}
+        ws = list(seen.values())
+        out += ws
+        stats['states'] += r.distinct
+        stats['transitions'] += r.states
+        gen.append({'NL': nl, 'Sizes': list(sizes), 'length': [lo, hi], 'behaviours': num, 'printed': sum(1 for v in r.prints if v and v[0] == 'WF'),
+                    'distinct_workflows': len(ws), 'with_second_routing_that_matters': sum(1 for x in ws if x['hits']),
+                    'wall_s': round(r.wall, 1)})
+    if not any(x['hits'] for x in out):
+        raise MachineryError('MappingGen.tla generated no workflow in which a routing pass starts with fm # im')
+    stats['generated_workflows'] = gen
+    return out
 
 
 def enumerate_circuits(ctx, stats):
@@ -343,10 +532,13 @@ def enumerate_circuits(ctx, stats):
     return out
 
 
-def key_of(case, clause):
-    k = {'clause': clause, 'placement': case['cfg']['placement'], 'layout': case['cfg']['layout_passes'] > 0}
+def key_of(run, point, clause):
+    places = [s['flavour'] for s in run['steps'] if s['kind'] == 'place']
+    k = {'clause': clause, 'placement': places[0] if places else 'none', 'layout': any(s['kind'] == 'layout' for s in run['steps']),
+         # how many routing passes had run when the circuit was judged, and whether one of them started with fm != im
+         'routings': '1' if point.get('routes_before', 1) <= 1 else '2+', 'second_routing_matters': point.get('mech_before', 0) > 0}
     if clause == 'workflow-raised':
-        k['error'] = re.sub(r'\d+', 'N', case['raised'])[:70]
+        k['error'] = re.sub(r'\d+', 'N', point.get('raised', ''))[:70]
     return k
 
 
@@ -360,29 +552,32 @@ def run(ctx: Ctx) -> Outcome:
     rng = random.Random(ctx.seed * 104729 + 9)
     t0 = time.time()
     if ctx.replay:
-        jobs = [tuple(ctx.replay['replay']['job'])]
+        jobs = [as_job(ctx.replay['replay']['job'])]
         srcs = ['replay']
     else:
         run_algebra(ctx, stats)
         enum = enumerate_circuits(ctx, stats)
+        wfs = generate_workflows(ctx, stats)
         multi = {w: [r for r in rs if len({tuple(sorted(o['loc'])) for o in r['ops'] if len(o['loc']) > 1 and o['k'] == 'g'}) >= (2 if w > 2 else 1)]
                  for w, rs in enum.items()}
         jobs, srcs = [], []
-        # (1) every connected coupling graph with up to 5 vertices x TLC-enumerated circuits
+
+        def add(src, nphys, edges, rec, cfg):
+            jobs.append({'recipe': rec, 'steps': single_stage(nphys, edges, cfg), 'cfg': cfg})
+            srcs.append(src)
+        # (1) every connected coupling graph with up to 5 vertices x TLC-enumerated circuits, one-stage workflow
         per = 1 if ctx.quick else 6
         for nphys in range(2, 6):
             for edges in all_connected_graphs(nphys):
                 for w in range(2, min(nphys, 4) + 1):
                     for _ in range(per):
                         rec = rng.choice(multi[w]) if rng.random() < 0.85 else rng.choice(enum[w])
-                        jobs.append((nphys, edges, rec, random_config(rng)))
-                        srcs.append('exhaustive-graphs')
-        # (2) random connected graphs with up to 10 vertices, circuits of 2-8 qudits
-        for i in range(700 if ctx.quick else 8000):
+                        add('exhaustive-graphs', nphys, edges, rec, random_config(rng))
+        # (2) random connected graphs with up to 10 vertices, circuits of 2-8 qudits, one-stage workflow
+        for i in range(500 if ctx.quick else 8000):
             nphys = rng.randint(3, 10)
             n = rng.randint(2, min(nphys, 8))
-            jobs.append((nphys, random_graph(rng, nphys), random_recipe(rng, n, 14 if ctx.quick else rng.choice([14, 14, 40])), random_config(rng)))
-            srcs.append('random')
+            add('random', nphys, random_graph(rng, nphys), random_recipe(rng, n, 14 if ctx.quick else rng.choice([14, 14, 40])), random_config(rng))
         # (3) sparse machines with circuits dominated by 3-qudit gates: the inputs on which the router runs into its
         #     local-minimum escape (backtrack the leading swaps, then uphill swaps)
         for i in range(120 if ctx.quick else 1500):
@@ -397,126 +592,207 @@ def run(ctx: Ctx) -> Outcome:
             cfg = random_config(rng)
             cfg['placement'] = rng.choice(['greedy', 'trivial'])
             cfg['layout_passes'] = rng.choice([0, 0, 1])
-            jobs.append((nphys, edges, rec, cfg))
-            srcs.append('hard')
+            add('hard', nphys, edges, rec, cfg)
         for nphys, edges, rec, cfg in ESCAPE_SEEDS:
-            jobs.append((nphys, edges, rec, cfg))
-            srcs.append('escape-seed')
+            add('escape-seed', nphys, edges, rec, cfg)
+        # (4) the workflows TLC generated from MappingAlgebra (MappingGen.tla), as generated: the machines of the model,
+        #     circuits enumerated by TLC (those with two or more interacting pairs: the first routing has to move qudits)
+        rng.shuffle(wfs)
+        hot = [x for x in wfs if x['hits']]
+        cold = [x for x in wfs if not x['hits']]
+        quota = 260 if ctx.quick else 3000
+        chosen = hot[:int(quota * 0.75)] + cold[:quota - min(len(hot), int(quota * 0.75))]
+        for x in chosen:
+            for _ in range(1 if ctx.quick else 2):
+                pool = multi.get(x['nl']) or enum[x['nl']]
+                rec = rng.choice(pool) if rng.random() < 0.5 else dense_recipe(rng, x['nl'], rng.randint(3, 8))
+                jobs.append({'recipe': rec, 'steps': x['steps'], 'cfg': random_config(rng)})
+                srcs.append('tlc-workflow')
+        # (5) the same shapes on machines of up to 10 qudits with circuits of 3-7 qudits
+        for x in (hot[:200] if ctx.quick else hot[:2500]):
+            nlog = rng.randint(3, 7)
+            rec = dense_recipe(rng, nlog, rng.randint(5, 16)) if rng.random() < 0.7 else random_recipe(rng, nlog, 14)
+            jobs.append({'recipe': rec, 'steps': scale_workflow(rng, x['steps'], nlog), 'cfg': random_config(rng)})
+            srcs.append('tlc-workflow-scaled')
+        stats['workflows_replayed'] = {'as_generated': len(chosen), 'of_which_second_routing_matters_in_model': sum(1 for x in chosen if x['hits']),
+                                       'scaled': sum(1 for s in srcs if s == 'tlc-workflow-scaled')}
     t1 = time.time()
     results = _c08._pool_map(observe, jobs)
     t2 = time.time()
-    cases, skipped = [], {}
-    for r, s in zip(results, srcs):
+    runs, skipped, jobs_kept = [], {}, []
+    for r, s, j in zip(results, srcs, jobs):
         if 'skip' in r:
             skipped[r['skip']] = skipped.get(r['skip'], 0) + 1
             continue
         r['src'] = s
-        r['job'] = None
-        cases.append(r)
-    jobs_kept = [j for j, r in zip(jobs, results) if 'skip' not in r]
-    if not cases:
+        runs.append(r)
+        jobs_kept.append(j)
+    if not runs:
         if ctx.replay:
             out.notes.append('NOTE property=C09 the replayed input is now refused by the passes: %s' % skipped)
             out.coverage = {'evaluations': 1, 'distinct_nontrivial': 0, 'samples': [], 'states': 0, 'transitions': 0}
             return out
         raise MachineryError('no case could be observed')
 
-    verdicts, st, tr, _ = common.batch_validate(ABS, ABS_CFG, [{k: v for k, v in _strip(c).items() if k != 'job'} for c in cases],
-                                                ctx.scratch, chunk=3000)
+    # L2 binding: replay the per-pass PassData snapshots of every run through MappingAlgebra's actions.  The model says where the
+    # circuit is one the property speaks about (JUDGE); disagreements are DRIFT.
+    path = os.path.join(ctx.scratch, 'mapping_traces.json')
+    keep = ('after', 'flavour', 'n', 'edges', 'placement', 'im', 'fm', 'swaps', 'cswaps', 'cand')
+    with open(path, 'w') as f:
+        json.dump([{'nlog': r['nlog'], 'snaps': [{k: s[k] for k in keep} for s in r['snaps']]} for r in runs], f)
+    r = common.tlc(TRACE, TRACE_CFG, env={'TRACE_FILE': path}, scratch=ctx.scratch, timeout=3000)
+    if not r.ok:
+        raise MachineryError('MappingTrace.tla failed: %s' % (r.error or r.out[-1500:]))
+    stats['states'] += r.distinct
+    stats['transitions'] += r.states
+    done, drifts, judge = {}, {}, {}
+    for v in r.prints:
+        if not v:
+            continue
+        if v[0] == 'DONE':
+            done[v[1]] = v[2]
+        elif v[0] == 'DRIFT':
+            drifts.setdefault(v[1], v[2:])
+        elif v[0] == 'JUDGE':
+            judge.setdefault(v[1], []).append(v[2])
+    drift = 0
+    logged_swaps = sum(len(s['swaps']) for x in runs for s in x['snaps'])
+    circuit_swaps = sum(len(s['cswaps']) for x in runs for s in x['snaps'])
+    unobservable = logged_swaps == 0 and circuit_swaps > 0
+    if unobservable:
+        out.notes.append('UNOBSERVABLE property=C09 clause=L2-binding-of-routing: the router no longer announces the swaps it applies '
+                         '("applying swap (a, b)" on the logger of bqskit.passes.mapping.sabre); routing passes are not compared with the model')
+    for i, x in enumerate(runs, 1):
+        d = drifts.get(i)
+        if i in done and done[i] == 'none' and d is None:
+            continue
+        if unobservable and d is not None and d[1] in ('route', 'route-tokens'):
+            continue
+        drift += 1
+        if drift <= 5:
+            where = ('pass %d "%s": %s' % (d[0], d[1], json.dumps(d[2:])[:300])) if d is not None else 'the replay stopped before the end of the run'
+            out.notes.append('DRIFT property=C09 MappingAlgebra.tla and the passes disagree at %s (workflow [%s], circuit of %d qudits, snapshots %s)'
+                             % (where, shape_of(x['steps']), x['nlog'], json.dumps([{k: s[k] for k in ('after', 'placement', 'im', 'fm')} for s in x['snaps']])[:500]))
+    if drift > 5:
+        out.notes.append('DRIFT property=C09 %d runs in total disagree with MappingAlgebra.tla' % drift)
+    t3 = time.time()
+
+    # L1: every point the model marked, and every run that raised, judged by RoutingAbs
+    cases, origin = [], []
+    for i, x in enumerate(runs, 1):
+        for s in sorted(set(judge.get(i, []))):
+            p = x['points'].get(str(s))
+            if p is None:
+                raise MachineryError('MappingTrace.tla marked pass %d of run %d, where no circuit was observed' % (s, i))
+            cases.append(l1_case(x, p))
+            origin.append((i - 1, str(s)))
+        if x['raised']:
+            p = {'nphys': max(1, x['machine'][0]), 'edges': x['machine'][1], 'out': [], 'pinit': list(range(x['nlog'])), 'pfinal': list(range(x['nlog'])),
+                 'placement': list(range(x['nlog'])), 'pw': x['nlog'], 'raised': x['raised'], 'routes_before': x['routes'], 'mech_before': x['mech']}
+            x['points']['raised'] = p
+            cases.append(l1_case(x, p))
+            origin.append((i - 1, 'raised'))
+    if not cases:
+        if not ctx.replay:
+            raise MachineryError('the model marked no point of any run as one the property speaks about')
+        out.notes.append('NOTE property=C09 the replayed workflow no longer reaches a point the property speaks about')
+    verdicts, st, tr, _ = common.batch_validate(ABS, ABS_CFG, cases, ctx.scratch, chunk=3000) if cases else ([], 0, 0, None)
     stats['states'] += st
     stats['transitions'] += tr
-    t3 = time.time()
+    t4 = time.time()
     for idx, step, clause, _ in verdicts:
-        c = cases[idx]
+        ri, pk = origin[idx]
+        x, c = runs[ri], cases[idx]
+        p = x['points'][pk]
         item = c['out'][step - 1] if 0 < step <= len(c['out']) else None
-        detail = ('workflow [SetModel, %s placement, %s, SabreRouting, ApplyPlacement] on a machine with %d qudits, edges %s, circuit of %d '
-                  'qudits: clause %s at output operation %d%s%s\ninput (id: kind logical-location): %s\ninitial mapping %s final mapping %s '
-                  'placement %s; output %s' % (
-                      c['cfg']['placement'], 'SabreLayout(%d)' % c['cfg']['layout_passes'] if c['cfg']['layout_passes'] else 'no layout',
-                      c['nphys'], c['edges'], c['nlog'], clause, step, (' ' + json.dumps(item)) if item else '',
+        detail = ('workflow [%s]%s with Sabre parameters %s; circuit of %d qudits, judged after pass %s on a machine with %d qudits, edges %s: '
+                  'clause %s at output operation %d%s%s\ninput (id: kind logical-location): %s\ninitial mapping %s final mapping %s '
+                  'placement %s; output %s\nPassData after each pass: %s' % (
+                      shape_of(x['steps']), ' (%d-pass layout)' % x['cfg']['layout_passes'] if any(s['kind'] == 'layout' for s in x['steps']) else '',
+                      json.dumps({k: v for k, v in x['cfg'].items() if k not in ('placement', 'layout_passes')}), x['nlog'], pk,
+                      c['nphys'], c['edges'], clause, step, (' ' + json.dumps(item)) if item else '',
                       (' raised ' + c['raised']) if c['raised'] else '',
                       ' '.join('%d:%s%s' % (i + 1, c['kind'][i], c['oploc'][i]) for i in range(min(len(c['oploc']), 30))),
                       c['pinit'], c['pfinal'], c['placement'],
-                      ' '.join('%s%s%s' % (o['k'], o['id'] or '', o['loc']) for o in c['out'][:40])))
-        out.violations.append(Violation('C09', clause, key_of(c, clause), detail, {'job': list(jobs_kept[idx])}))
-
-    # binding of MappingAlgebra: replay the per-pass PassData snapshots through its actions
-    traced = [c for c in cases if not c['raised']]
-    drift = 0
-    if traced:
-        path = os.path.join(ctx.scratch, 'mapping_traces.json')
-        with open(path, 'w') as f:
-            json.dump([{k: c[k] for k in ('nlog', 'nphys', 'edges', 'snaps', 'swaps')} for c in traced], f)
-        r = common.tlc(TRACE, TRACE_CFG, env={'TRACE_FILE': path}, scratch=ctx.scratch, timeout=3000)
-        if not r.ok:
-            raise MachineryError('MappingTrace.tla failed: %s' % (r.error or r.out[-1500:]))
-        stats['states'] += r.distinct
-        stats['transitions'] += r.states
-        done = {v[1] for v in _c08.parse_marked(r.out, 'DONE')}
-        drifts = {}
-        for m in re.finditer(r'<<\s*"DRIFT",\s*(\d+),\s*"(\w+)"', r.out):
-            drifts.setdefault(int(m.group(1)), m.group(2))
-        for i in range(1, len(traced) + 1):
-            if i in done:
-                continue
-            drift += 1
-            if drift <= 5:
-                c = traced[i - 1]
-                out.notes.append('DRIFT property=C09 MappingAlgebra.tla and the passes disagree after pass "%s" (machine %d qudits edges %s, %s placement, '
-                                 'snapshots %s)' % (drifts.get(i, 'not-enabled'), c['nphys'], c['edges'], c['cfg']['placement'], json.dumps(c['snaps'])[:400]))
-        if drift > 5:
-            out.notes.append('DRIFT property=C09 %d runs in total disagree with MappingAlgebra.tla' % drift)
-    t4 = time.time()
+                      ' '.join('%s%s%s' % (o['k'], o['id'] or '', o['loc']) for o in c['out'][:40]),
+                      json.dumps([[s['after'], s['placement'], s['im'], s['fm']] for s in x['snaps']])[:600]))
+        out.violations.append(Violation('C09', clause, key_of(x, p, clause), detail, {'job': jobs_kept[ri]}))
 
     by_src, by_place = {}, {}
-    for c in cases:
-        by_src[c['src']] = by_src.get(c['src'], 0) + 1
-        by_place[c['cfg']['placement']] = by_place.get(c['cfg']['placement'], 0) + 1
+    for x in runs:
+        by_src[x['src']] = by_src.get(x['src'], 0) + 1
+        for s in x['steps']:
+            if s['kind'] == 'place':
+                by_place[s['flavour']] = by_place.get(s['flavour'], 0) + 1
     nswaps = sum(sum(1 for o in c['out'] if o['k'] == 's') for c in cases)
-    nontrivial = {common.digest({k: v for k, v in _strip(c).items() if k != 'job'}) for c in cases
+    nontrivial = {common.digest(c) for c in cases
                   if any(o['k'] == 's' for o in c['out']) or c['pinit'] != list(range(c['nlog'])) or c['pfinal'] != c['pinit']}
     by_clause = {}
     for v in out.violations:
         by_clause[v.clause] = by_clause.get(v.clause, 0) + 1
+    multi_runs = [x for x in runs if x['routes'] >= 2]
+    mech_runs = [x for x in runs if x['mech']]
+    judged_after_mech = sum(1 for (ri, pk) in origin if runs[ri]['points'][pk].get('mech_before', 0) > 0)
+    if not ctx.replay and not judged_after_mech:
+        raise MachineryError('no real run was judged after a routing pass that started with final_mapping != initial_mapping')
+    shapes = {shape_of(x['steps']) for x in runs}
 
-    def sample(c):
-        return {'nphys': c['nphys'], 'edges': c['edges'], 'config': c['cfg'], 'input': ['%s%s' % (c['kind'][i], c['oploc'][i]) for i in range(len(c['oploc']))][:12],
-                'output': ['%s%s%s' % (o['k'], o['id'] or '', o['loc']) for o in c['out']][:16],
-                'initial_mapping': c['pinit'], 'final_mapping': c['pfinal'], 'placement': c['placement']}
-    withsw = [c for c in cases if any(o['k'] == 's' for o in c['out'])]
-    picks = (withsw[:2] if withsw else []) + [cases[len(cases) // 2]]
+    def sample(x):
+        pk = sorted(x['points'])[-1] if x['points'] else None
+        p = x['points'][pk] if pk else {}
+        return {'workflow': shape_of(x['steps']), 'machine': x['machine'], 'config': x['cfg'],
+                'input': ['%s%s' % (x['kind'][i], x['oploc'][i]) for i in range(len(x['oploc']))][:12],
+                'output': ['%s%s%s' % (o['k'], o['id'] or '', o['loc']) for o in p.get('out', [])][:16],
+                'passdata_after_each_pass': [[s['after'], s['placement'], s['im'], s['fm']] for s in x['snaps']][:12]}
+    withsw = [x for x in runs if any(s['cswaps'] for s in x['snaps'])]
+    picks = (mech_runs[:2] if mech_runs else withsw[:2]) + [runs[len(runs) // 2]]
     out.coverage = {
         'states': stats['states'], 'transitions': stats['transitions'],
-        'traces_validated_against_impl': len(cases),
+        'traces_validated_against_impl': len(runs),
         'evaluations': len(cases), 'distinct_nontrivial': len(nontrivial),
-        'rule': 'one case = one run of the real workflow [SetModelPass, Greedy/Trivial/Static placement, GeneralizedSabreLayoutPass (0-3 passes), '
-                'GeneralizedSabreRoutingPass, ApplyPlacement] on one (coupling graph, circuit, parameter) triple, judged by TLC (RoutingAbs.tla); '
-                'all connected labelled graphs on 2-5 vertices x circuits enumerated by TLC (CircuitEnum.tla), plus seeded random connected graphs '
-                'on 3-10 vertices with random circuits of 2-8 qudits; non-trivial = at least one swap inserted or a non-identity mapping; '
-                'distinct by content hash of the whole case',
+        'rule': 'one run = one workflow of the real passes (SetModelPass, Greedy/Trivial/Static placement, GeneralizedSabreLayoutPass, '
+                'GeneralizedSabreRoutingPass, ApplyPlacement in the order and number the workflow says) on one PassData; every run is replayed '
+                'pass by pass through MappingAlgebra.tla (MappingTrace.tla); one evaluation = the real circuit and mappings at one point of a run '
+                'that the model marks as routed and applied, judged by TLC (RoutingAbs.tla) against the original input. One-stage workflows: all '
+                'connected labelled graphs on 2-5 vertices x circuits enumerated by TLC (CircuitEnum.tla), seeded random connected graphs on 3-10 '
+                'vertices with random circuits of 2-8 qudits. Multi-stage workflows: generated by TLC from MappingAlgebra.tla (MappingGen.tla), '
+                'run as generated and scaled to machines of up to 10 qudits. non-trivial = at least one swap in the circuit or a non-identity '
+                'mapping; distinct by content hash of the whole case',
         'exhaustive': False,
-        'exhaustive_part': 'MappingAlgebra.tla state graphs: ' + '; '.join(
-            '%d logical on %d physical (%s graphs, <=%d swaps): %d states' % (r['NL'], r['NP'], r['graphs'], r['MaxSwaps'], r['states'])
+        'exhaustive_part': 'MappingAlgebra.tla state graphs (workflows of every length): ' + '; '.join(
+            '%d logical, machines of %s qudits (%s graphs, <=%d swaps per routing): %d states' % (r['NL'], r['Sizes'], r['graphs'], r['MaxSwaps'], r['states'])
             for r in stats.get('algebra_runs', [])) + '; every connected labelled graph on 2-5 vertices is used as a machine',
         'algebra_runs': stats.get('algebra_runs', []), 'algebra_action_coverage': stats.get('algebra_action_coverage', {}),
         'enumerated_circuits': stats.get('enumerated_circuits', {}),
-        'mapping_traces_replayed_through_L2': len(traced), 'drift': drift,
-        'swaps_inserted': nswaps, 'runs_with_swaps': len(withsw),
-        'local_minimum_escapes': sum(c['escapes'] for c in cases), 'runs_with_local_minimum_escape': sum(1 for c in cases if c['escapes']),
-        'local_minimum_escapes_while_routing': sum(c['escapes_routing'] for c in cases),
-        'by_source': by_src, 'by_placement': by_place, 'skipped_refused_by_design': skipped,
+        'generated_workflows': stats.get('generated_workflows', []), 'workflows_replayed': stats.get('workflows_replayed', {}),
+        'distinct_workflow_shapes_run': len(shapes),
+        'runs_with_two_or_more_routing_passes': len(multi_runs),
+        'routing_passes_run': sum(x['routes'] for x in runs),
+        'routing_passes_started_with_fm_ne_im': sum(x['mech'] for x in runs),
+        'runs_in_which_second_routing_matters': len(mech_runs),
+        'points_judged_by_L1': len(cases), 'points_judged_after_a_routing_that_started_with_fm_ne_im': judged_after_mech,
+        'mapping_traces_replayed_through_L2': len(runs), 'drift': drift,
+        'swaps_logged_by_router': logged_swaps, 'swaps_in_judged_circuits': nswaps, 'runs_with_swaps': len(withsw),
+        'local_minimum_escapes': sum(x['escapes'] for x in runs), 'runs_with_local_minimum_escape': sum(1 for x in runs if x['escapes']),
+        'local_minimum_escapes_while_routing': sum(x['escapes_routing'] for x in runs),
+        'by_source': by_src, 'placement_passes_by_kind': by_place, 'skipped_refused_by_design': skipped,
+        'runs_cut_short_by_a_refusal': sum(1 for x in runs if x['refused']),
         'verdicts_by_clause': by_clause,
-        'max_machine': max(c['nphys'] for c in cases), 'max_circuit_width': max(c['nlog'] for c in cases),
-        'timing_s': {'model_checking': round(t1 - t0, 1), 'real_passes': round(t2 - t1, 1), 'trace_validation': round(t3 - t2, 1),
-                     'l2_binding': round(t4 - t3, 1)},
-        'samples': [sample(c) for c in picks],
-        'checker_cmd': 'tlc -config <generated> specs/mapping/MappingAlgebra.tla (-coverage 1); tlc specs/mapping/CircuitEnum.tla; '
-                       'tlc -config specs/mapping/RoutingAbs.cfg specs/mapping/RoutingAbs.tla (batch, TRACE_FILE=cases.json); '
-                       'tlc -config specs/mapping/MappingTrace.cfg specs/mapping/MappingTrace.tla (batch)',
+        'max_machine': max(x['machine'][0] for x in runs), 'max_circuit_width': max(x['nlog'] for x in runs),
+        'longest_workflow': max(len(x['steps']) for x in runs),
+        'timing_s': {'model_checking_and_generation': round(t1 - t0, 1), 'real_passes': round(t2 - t1, 1), 'l2_binding': round(t3 - t2, 1),
+                     'trace_validation': round(t4 - t3, 1)},
+        'samples': [sample(x) for x in picks],
+        'checker_cmd': 'tlc -config <generated> specs/mapping/MappingAlgebra.tla (-coverage 1, VIEW NoSteps); tlc specs/mapping/CircuitEnum.tla; '
+                       'tlc -simulate num=N -seed S -config <generated> specs/mapping/MappingGen.tla; '
+                       'tlc -config specs/mapping/MappingTrace.cfg specs/mapping/MappingTrace.tla (batch, TRACE_FILE=runs.json); '
+                       'tlc -config specs/mapping/RoutingAbs.cfg specs/mapping/RoutingAbs.tla (batch, TRACE_FILE=cases.json)',
         'trusted_base': ['TLC', 'harness/checks/c09.py observation code (operations identified by TaggedGate tag, blocks by the tags inside, '
-                         'SwapGate = inserted swap; parameters rounded to 1e-6)', 'harness/checks/c08.py circuit builder'],
+                         'SwapGate = swap; parameters rounded to 1e-6; swaps applied by the router read from its debug log)',
+                         'harness/checks/c08.py circuit builder'],
     }
     out.assumptions = ['all qudits are qubits; inputs contain no SwapGate and no measurement',
-                       'runs the passes refuse by design (trivial placement disconnected, no static placement found, model too small) are not cases',
+                       'a pass that refuses by design (trivial placement disconnected, no placement found, routing / layout on disconnected '
+                       'qudits, model too small) ends the workflow before it; a workflow refused before its first routing is not a run',
                        'PAM layout/routing is not exercised (needs synthesis through the runtime)']
     return out
